@@ -186,7 +186,7 @@ def model_line(data, eof, sched, declog, method='GET', version='HTTP/1.1', keep_
     dl = ','.join(('o' + enc(v)) if k == 'ok' else ('e' + v) for k, v in declog) or '~'
     return 'http decode %s %s %s %s %s %s %s %s' % (
         enc(method), enc(version), 'T' if keep_alive else 'F', 'T' if ignore_length else 'F',
-        'T' if eof else 'F', enc(data), '-' if not sched else '.'.join('%x' % s for s in sched), dl)
+        'R' if eof == 'reset' else 'T' if eof else 'F', enc(data), '-' if not sched else '.'.join('%x' % s for s in sched), dl)
 
 
 def sched_of(calls):
